@@ -3,9 +3,10 @@
 
 Mirrors
 * `rosomaxa/src/population/greedy.rs`   `Greedy::{add, add_all, select, ranked, size, selection_phase}`
-  (`add_all` is `fold(false, |acc, i| acc || self.add(i))`: Rust's `||` does not evaluate `self.add(i)`
-  once `acc` is `true`, so the elements after the first improving one are dropped unseen — the model
-  has this as the flag `shortCircuit`, `Greedy.repoShortCircuits` says what `/repo` does today),
+  (`add_all` is `fold(false, |acc, i| self.add(i) || acc)`: every element reaches `add`. Before the repair S35 it was
+  `acc || self.add(i)`, whose right operand Rust does not evaluate once `acc` is `true`, so the elements after the
+  first improving one were dropped unseen. The model keeps both folds behind the flag `shortCircuit`;
+  `Greedy.repoShortCircuits = false` says which one `/repo` has),
 * `rosomaxa/src/population/elitism.rs`  `Elitism::{add, add_all, add_with_iter, sort, ensure_max_population_size,
   is_improved, on_generation, select, ranked, size, selection_phase}`
   (`extend; sort_by (stable); dedup_by (keeps the earlier twin); truncate`),
@@ -123,8 +124,9 @@ def Greedy.add (c : Cfg α) (best : Option α) (x : α) : Option α × Bool :=
   | some b => if c.le b x then (some b, false) else (some x, true)
   | none => (some x, true)
 
-/-- `Greedy::add_all`; `shortCircuit = true` is `acc || self.add(i)` (the right operand is not evaluated
-    once `acc` holds), `false` is a fold that hands every element to `add`. -/
+/-- `Greedy::add_all`; `shortCircuit = false` is the fold of /repo (`self.add(i) || acc`: every element is handed to
+    `add`), `true` is the fold before the repair S35, `acc || self.add(i)` (the right operand is not evaluated once
+    `acc` holds) — kept to state what a regression would lose. -/
 def Greedy.addAll (shortCircuit : Bool) (c : Cfg α) (best : Option α) (xs : List α) : Option α × Bool :=
   xs.foldl (fun (acc : Option α × Bool) x =>
     if shortCircuit && acc.2 then acc
@@ -132,11 +134,10 @@ def Greedy.addAll (shortCircuit : Bool) (c : Cfg α) (best : Option α) (xs : Li
       let r := Greedy.add c acc.1 x
       (r.1, acc.2 || r.2)) (best, false)
 
-/-- what `/repo/rosomaxa/src/population/greedy.rs::add_all` does today (checked by the correspondence run:
-    `corpus/C08/greedy_batch_skips_better.jsonl` and every generated Greedy case with a better element after the first
-    improving one distinguish the two folds). THE ONLY SWITCH: once `add_all` hands every element to `add`
-    (e.g. `self.add(individual) || acc`), set this to `false`; model, driver and oracle then demand the full property
-    for Greedy as well (theorems exist for both values, none depends on this constant). -/
+/-- which fold `/repo/rosomaxa/src/population/greedy.rs::add_all` is: the exhaustive one since the repair S35
+    (checked by the correspondence run: `corpus/C08/greedy_batch_skips_better.jsonl` and every generated Greedy case
+    with a better element after the first improving one distinguish the two folds). The oracle does not depend on this
+    constant: it always demands the full specification (`greedySpec false`). -/
 def Greedy.repoShortCircuits : Bool := false
 
 /-- `std::iter::repeat_n(best_known, selection_size)` -/
@@ -330,7 +331,8 @@ leave it unchanged; `add`/`add_all` return `true` exactly when the best known st
 first (outside the initial phase); the phase only moves forward. -/
 
 /-- the prefix of a batch up to and including the first element that improves on `best` — what a population
-    whose `add_all` stops looking after the first improvement effectively receives -/
+    whose `add_all` stops looking after the first improvement effectively receives (regression analysis only:
+    the check's oracle never uses it) -/
 def consideredPrefix (le : α → α → Bool) (best : Option α) : List α → List α
   | [] => []
   | x :: xs =>
